@@ -192,3 +192,303 @@ Proof.
   all: try (intros [|c] e H; discriminate).
   all: try (intros [|[|h]] pc H; simpl in H; inversion H; subst; simpl; auto).
 Qed.
+
+(* ---- updates of the callback table ----------------------------------------------------------------------------- *)
+
+Definition with_cst (e : cb) (x : cstate) : cb := {| ck := ck e; cinl := cinl e; cst := x; cv := cv e |}.
+Definition with_cv (e : cb) (x : cstate) (v : option nat) : cb :=
+  {| ck := ck e; cinl := cinl e; cst := x; cv := cv e ++ [v] |}.
+
+Lemma nth_set_cst l c x j :
+  nth_error (set_cst l c x) j =
+  match nth_error l j with Some e => Some (if Nat.eqb c j then with_cst e x else e) | None => None end.
+Proof.
+  unfold set_cst. destruct (nth_error l c) eqn:E.
+  - rewrite nth_upd. destruct (Nat.eqb c j) eqn:Ej.
+    + apply Nat.eqb_eq in Ej; subst. rewrite E. reflexivity.
+    + destruct (nth_error l j); reflexivity.
+  - destruct (Nat.eqb c j) eqn:Ej.
+    + apply Nat.eqb_eq in Ej; subst. rewrite E. reflexivity.
+    + destruct (nth_error l j); reflexivity.
+Qed.
+
+Lemma nth_add_cv l c x v j :
+  nth_error (add_cv l c x v) j =
+  match nth_error l j with Some e => Some (if Nat.eqb c j then with_cv e x v else e) | None => None end.
+Proof.
+  unfold add_cv. destruct (nth_error l c) eqn:E.
+  - rewrite nth_upd. destruct (Nat.eqb c j) eqn:Ej.
+    + apply Nat.eqb_eq in Ej; subst. rewrite E. reflexivity.
+    + destruct (nth_error l j); reflexivity.
+  - destruct (Nat.eqb c j) eqn:Ej.
+    + apply Nat.eqb_eq in Ej; subst. rewrite E. reflexivity.
+    + destruct (nth_error l j); reflexivity.
+Qed.
+
+Lemma count_set_cst f l c x e :
+  nth_error l c = Some e ->
+  count f (set_cst l c x) + (if f e then 1 else 0) = count f l + (if f (with_cst e x) then 1 else 0).
+Proof. intros H. unfold set_cst. rewrite H. apply count_upd. exact H. Qed.
+
+Lemma count_add_cv f l c x v e :
+  nth_error l c = Some e ->
+  count f (add_cv l c x v) + (if f e then 1 else 0) = count f l + (if f (with_cv e x v) then 1 else 0).
+Proof. intros H. unfold add_cv. rewrite H. apply count_upd. exact H. Qed.
+
+Lemma count_set_cst_none f l c x : nth_error l c = None -> count f (set_cst l c x) = count f l.
+Proof. intros H. unfold set_cst. rewrite H. reflexivity. Qed.
+
+Lemma count_cinl_set_cst l c x : count cinl (set_cst l c x) = count cinl l.
+Proof.
+  destruct (nth_error l c) eqn:E.
+  - pose proof (count_set_cst cinl l c x c0 E) as H. simpl in H. lia.
+  - apply count_set_cst_none. exact E.
+Qed.
+
+Lemma count_cinl_add_cv l c x v : count cinl (add_cv l c x v) = count cinl l.
+Proof.
+  destruct (nth_error l c) eqn:E.
+  - pose proof (count_add_cv cinl l c x v c0 E) as H. simpl in H. lia.
+  - unfold add_cv. rewrite E. reflexivity.
+Qed.
+
+Lemma is_event_set_cst l c x j : is_event (set_cst l c x) j = is_event l j.
+Proof.
+  unfold is_event, kind_at. rewrite nth_set_cst. destruct (nth_error l j); [|reflexivity].
+  destruct (Nat.eqb c j); reflexivity.
+Qed.
+
+(* the events skipped by the walk *)
+Definition mark (sk : list nat) (cbs : list cb) : list cb := fold_left (fun acc c => set_cst acc c CDone) sk cbs.
+Definition memb (j : nat) (l : list nat) : bool := existsb (Nat.eqb j) l.
+
+Lemma memb_In j l : memb j l = true <-> In j l.
+Proof.
+  unfold memb. rewrite existsb_exists. split.
+  - intros [x [Hi He]]. apply Nat.eqb_eq in He. subst. exact Hi.
+  - intros H. exists j. split; [exact H|apply Nat.eqb_refl].
+Qed.
+
+Lemma with_cst_idem e x : with_cst (with_cst e x) x = with_cst e x.
+Proof. reflexivity. Qed.
+
+Lemma nth_mark sk : forall l j,
+  nth_error (mark sk l) j =
+  match nth_error l j with Some e => Some (if memb j sk then with_cst e CDone else e) | None => None end.
+Proof.
+  induction sk as [|c sk IH]; intros l j; simpl.
+  - destruct (nth_error l j); reflexivity.
+  - unfold mark in *. simpl. rewrite IH. rewrite nth_set_cst. destruct (nth_error l j) as [e|]; [|reflexivity].
+    unfold memb. simpl. rewrite (Nat.eqb_sym j c). destruct (Nat.eqb c j); simpl.
+    + destruct (existsb (Nat.eqb j) sk); reflexivity.
+    + reflexivity.
+Qed.
+
+Lemma is_event_mark sk : forall l j, is_event (mark sk l) j = is_event l j.
+Proof.
+  induction sk as [|c sk IH]; intros l j; simpl; [reflexivity|].
+  unfold mark in *. simpl. rewrite IH. apply is_event_set_cst.
+Qed.
+
+Lemma count_cinl_mark sk : forall l, count cinl (mark sk l) = count cinl l.
+Proof.
+  induction sk as [|c sk IH]; intros l; simpl; [reflexivity|].
+  unfold mark in *. simpl. rewrite IH. apply count_cinl_set_cst.
+Qed.
+
+Lemma count_held_set_cst_unheld l c x :
+  (forall e, nth_error l c = Some e -> held e = false) -> held {| ck := KInl; cinl := false; cst := x; cv := [] |} = false ->
+  count held (set_cst l c x) = count held l.
+Proof.
+  intros H Hx. destruct (nth_error l c) eqn:E.
+  - pose proof (count_set_cst held l c x c0 E) as Hc. rewrite (H _ eq_refl) in Hc.
+    assert (held (with_cst c0 x) = false) by (unfold held in *; simpl in *; exact Hx).
+    rewrite H0 in Hc. lia.
+  - apply count_set_cst_none. exact E.
+Qed.
+
+Lemma count_held_mark sk : forall l,
+  (forall c e, In c sk -> nth_error l c = Some e -> held e = false) -> count held (mark sk l) = count held l.
+Proof.
+  induction sk as [|c sk IH]; intros l H; simpl; [reflexivity|].
+  unfold mark in *. simpl. rewrite IH.
+  - apply count_held_set_cst_unheld; [|reflexivity]. intros e He. apply (H c e); [left; reflexivity|exact He].
+  - intros c' e' Hin Hn. rewrite nth_set_cst in Hn. destruct (nth_error l c') eqn:E; [|discriminate].
+    inversion Hn; subst. destruct (Nat.eqb c c'); [reflexivity|]. apply (H c' c0); [right; exact Hin|exact E].
+Qed.
+
+Lemma mark_length sk : forall l, length (mark sk l) = length l.
+Proof.
+  induction sk as [|c sk IH]; intros l; simpl; [reflexivity|].
+  unfold mark in *. simpl. rewrite IH. unfold set_cst. destruct (nth_error l c); [apply upd_length|reflexivity].
+Qed.
+
+(* what the walk does with what is left of the list *)
+Lemma advance_spec l : forall cbs pc cbs', advance l cbs = (pc, cbs') ->
+  exists sk,
+    (forall c, In c sk -> is_event cbs c = true) /\
+    ((l = [] /\ sk = [] /\ pc = FLastDec None /\ cbs' = cbs) \/
+     (exists c, l = sk ++ [c] /\ pc = FLastDec (Some c) /\ cbs' = mark sk cbs) \/
+     (exists c rest, rest <> [] /\ l = sk ++ c :: rest /\ pc = FWalk c rest /\ is_event cbs c = false /\
+                     cbs' = set_cst (mark sk cbs) c CFireF)).
+Proof.
+  induction l as [|c l IH]; intros cbs pc cbs' H.
+  - simpl in H. inversion H; subst. exists []. split; [intros ? []|]. left. auto.
+  - destruct l as [|c2 r].
+    + simpl in H. inversion H; subst. exists []. split; [intros ? []|]. right; left. exists c. auto.
+    + simpl in H. destruct (is_event cbs c) eqn:Ev.
+      * apply IH in H. destruct H as [sk [Hev Hc]]. exists (c :: sk). split.
+        { intros x [Hx|Hx]; [subst; exact Ev|]. specialize (Hev x Hx). rewrite is_event_set_cst in Hev. exact Hev. }
+        destruct Hc as [[Hl _]|[[c' [Hl [Hp Hm]]]|[c' [rest [Hr [Hl [Hp [He Hm]]]]]]]].
+        { discriminate. }
+        { right; left. exists c'. simpl. rewrite Hl. auto. }
+        { right; right. exists c', rest. simpl. rewrite Hl. rewrite is_event_set_cst in He. auto. }
+      * inversion H; subst. exists []. split; [intros ? []|]. right; right. exists c, (c2 :: r).
+        repeat split; auto. discriminate.
+Qed.
+
+(* ---- small facts used everywhere ---------------------------------------------------------------------------------- *)
+
+Ltac sf := unfold set_h, set_w, set_slot, set_val, set_refs, set_fpc, set_hs, set_cs, set_dying, set_under, set_uaf,
+                  set_gots, set_iruns, set_nfail, set_readys, set_freed, inc, note_ready in *; simpl in *.
+
+Lemma prom_zero f : prom f = 0 -> f = FDone.
+Proof. destruct f; simpl; intros; try discriminate; reflexivity. Qed.
+
+Lemma live_dead pc : live pc = false -> pc = HDead.
+Proof. destruct pc; simpl; intros; try discriminate; reflexivity. Qed.
+
+Lemma alive_refs s : Inv s -> alive s = true <-> 1 <= refs s.
+Proof.
+  intros I. rewrite (I_alive s I). destruct (refs s); simpl; split; intros; try discriminate; try lia; reflexivity.
+Qed.
+
+Lemma alive_h s h pc : Inv s -> nth_error (hs s) h = Some pc -> live pc = true -> alive s = true.
+Proof.
+  intros I Hn Hl. apply (alive_refs s I). rewrite (I_refs s I). pose proof (count_pos live _ _ _ Hn Hl). lia.
+Qed.
+
+Lemma alive_c s c e : Inv s -> nth_error (cs s) c = Some e -> held e = true -> alive s = true.
+Proof.
+  intros I Hn Hl. apply (alive_refs s I). rewrite (I_refs s I). pose proof (count_pos held _ _ _ Hn Hl). lia.
+Qed.
+
+Lemma alive_f s : Inv s -> fpc s <> FDone -> alive s = true.
+Proof.
+  intros I Hf. apply (alive_refs s I). rewrite (I_refs s I). destruct (fpc s); simpl; try lia. congruence.
+Qed.
+
+Lemma word_res s : Inv s -> w s = WRes -> exists r, val s = Some r /\ (slot s = SetV r \/ slot s = Moved).
+Proof.
+  intros I Hw. pose proof (I_word s I) as H. destruct (fpc s); try (destruct H as [_ H]; exact H).
+  - destruct H as [_ [_ [l Hl]]]. congruence.
+  - destruct H as [_ [l Hl]]. congruence.
+Qed.
+
+(* a read of the slot by somebody who may still read *)
+Lemma rd_ok s : Inv s -> alive s = true -> w s = WRes -> slot s <> Moved -> rd s = val s /\ val s <> None.
+Proof.
+  intros I Ha Hw Hm. destruct (word_res s I Hw) as [r [Hv [Hs|Hs]]]; [|congruence].
+  unfold rd. rewrite Ha, Hs, Hv. split; [reflexivity|discriminate].
+Qed.
+
+Lemma not_moved_h s h pc : Inv s -> nth_error (hs s) h = Some pc -> pc <> HSpent -> pc <> HDead -> slot s <> Moved.
+Proof.
+  intros I Hn H1 H2 Hm. destruct (I_moved s I Hm) as [Hh _]. destruct (Hh _ _ Hn); congruence.
+Qed.
+
+Lemma not_moved_c s c e : Inv s -> nth_error (cs s) c = Some e -> cst e <> CDone -> slot s <> Moved.
+Proof.
+  intros I Hn H1 Hm. destruct (I_moved s I Hm) as [_ Hc]. specialize (Hc _ _ Hn). congruence.
+Qed.
+
+(* the state of a handle as its thread sees it: a sleeping waiter whose event was fired is awake *)
+Lemma pc_of_ok s h pc : Inv s -> pc_of s h = Some pc -> pc <> HDead ->
+  exists pc0, nth_error (hs s) h = Some pc0 /\ live pc0 = true /\ inl_pc pc0 = inl_pc pc /\ h_ok s pc /\
+              (pc0 = pc \/ exists c k, pc0 = HSleep c k).
+Proof.
+  intros I H Hd. unfold pc_of in H. destruct (nth_error (hs s) h) as [pc0|] eqn:E; [|discriminate].
+  assert (Hok0 : h_ok s pc0) by (apply (I_h s I h); exact E).
+  destruct pc0; try (inversion H; subst; exists pc; repeat split; auto; try (destruct pc; simpl; congruence); fail).
+  destruct (nth_error (cs s) c) as [e|] eqn:Ec.
+  - destruct (cst e) eqn:Est; try (inversion H; subst; eexists; repeat split; eauto; fail).
+    inversion H; subst. exists (HSleep c kont). repeat split; auto.
+    + destruct kont; reflexivity.
+    + pose proof (I_cb s I c e Ec) as [Hw _]. assert (w s = WRes) by (apply Hw; congruence).
+      destruct kont; simpl; auto.
+    + right. eauto.
+  - inversion H; subst. eexists; repeat split; eauto.
+Qed.
+
+Lemma h_ok_frame s s' pc :
+  h_ok s pc ->
+  (w s = WRes -> w s' = WRes) ->
+  (pc = HOut true -> refs s' = refs s) ->
+  (forall c e, nth_error (cs s) c = Some e -> exists e', nth_error (cs s') c = Some e' /\ ck e' = ck e) ->
+  h_ok s' pc.
+Proof.
+  intros H Hw Hr Hc. destruct pc; simpl in *; auto.
+  - destruct mv; [destruct H as [H1 H2]; split; [auto|rewrite Hr; auto]|auto].
+  - destruct H as [e [He Hk]]. destruct (Hc _ _ He) as [e' [He' Hk']]. exists e'. split; congruence.
+  - destruct H; split; auto.
+Qed.
+
+Lemma cb_ok_frame s s' c e :
+  cb_ok s c e ->
+  (w s = WRes -> w s' = WRes) ->
+  (forall dc, cst e = CConn true dc -> refs s' = refs s /\ fpc s' = fpc s) ->
+  val s' = val s ->
+  cb_ok s' c e.
+Proof.
+  intros [H1 [H2 H3]] Hw Hr Hv. repeat split.
+  - intros Hq. auto.
+  - destruct (cst e); auto. destruct H2 as [Ha [Hb Hc]]. repeat split; auto.
+    + intros ->. destruct (Hr _ eq_refl) as [R1 R2]. destruct (Hc eq_refl). rewrite R1. auto.
+    + intros ->. destruct (Hr _ eq_refl) as [R1 R2]. destruct (Hc eq_refl). rewrite R2. auto.
+  - rewrite Hv. exact H3.
+Qed.
+
+(* nobody is in the middle of a move decision: true whenever somebody else is about to change the counter *)
+Definition no_excl (s : st) : Prop :=
+  (forall h, nth_error (hs s) h <> Some (HOut true)) /\
+  (forall c e dc, nth_error (cs s) c = Some e -> cst e <> CConn true dc).
+
+Lemma excl_out s h : Inv s -> nth_error (hs s) h = Some (HOut true) ->
+  fpc s = FDone /\ count live (hs s) = 1 /\ count held (cs s) = 0.
+Proof.
+  intros I Hn. pose proof (I_h s I _ _ Hn) as [_ Hr]. pose proof (I_refs s I) as R.
+  pose proof (count_pos live _ _ _ Hn eq_refl). assert (prom (fpc s) = 0) by lia.
+  split; [apply prom_zero; assumption|lia].
+Qed.
+
+Lemma excl_conn s c e dc : Inv s -> nth_error (cs s) c = Some e -> cst e = CConn true dc ->
+  fpc s = FLast c /\ count live (hs s) = 0 /\ count held (cs s) = 0.
+Proof.
+  intros I Hn Hc. pose proof (I_cb s I _ _ Hn) as [_ [H2 _]]. rewrite Hc in H2. destruct H2 as [_ [_ H2]].
+  destruct (H2 eq_refl) as [Hr Hf]. pose proof (I_refs s I) as R. rewrite Hf in R. simpl in R. split; [assumption|lia].
+Qed.
+
+Lemma no_excl_h s h pc0 : Inv s -> nth_error (hs s) h = Some pc0 -> live pc0 = true -> pc0 <> HOut true -> no_excl s.
+Proof.
+  intros I Hn Hl Hne. split.
+  - intros h' Hh'. destruct (excl_out s h' I Hh') as [_ [Hc _]].
+    assert (h <> h') by (intros ->; congruence).
+    pose proof (count_two live _ _ _ _ _ Hn Hh' H Hl eq_refl). lia.
+  - intros c e dc Hc He. destruct (excl_conn s c e dc I Hc He) as [_ [Hz _]].
+    pose proof (count_pos live _ _ _ Hn Hl). lia.
+Qed.
+
+Lemma no_excl_c s c e : Inv s -> nth_error (cs s) c = Some e -> held e = true -> no_excl s.
+Proof.
+  intros I Hn Hl. split.
+  - intros h' Hh'. destruct (excl_out s h' I Hh') as [_ [_ Hc]]. pose proof (count_pos held _ _ _ Hn Hl). lia.
+  - intros c' e' dc Hc He. destruct (excl_conn s c' e' dc I Hc He) as [_ [_ Hz]].
+    pose proof (count_pos held _ _ _ Hn Hl). lia.
+Qed.
+
+Lemma no_excl_f s : Inv s -> fpc s <> FDone -> (forall c, fpc s <> FLast c) -> no_excl s.
+Proof.
+  intros I Hd Hl. split.
+  - intros h' Hh'. destruct (excl_out s h' I Hh') as [Hf _]. congruence.
+  - intros c' e' dc Hc He. destruct (excl_conn s c' e' dc I Hc He) as [Hf _]. apply (Hl c'). exact Hf.
+Qed.
